@@ -62,8 +62,14 @@ def main():
             dst = os.path.join(VERIF, 'seeded', name)
             os.makedirs(dst, exist_ok=True)
             for f in ('patch.diff', 'demo.py', 'notes.txt'):
-                if os.path.exists(os.path.join(src, f)):
+                if os.path.exists(os.path.join(src, f)) and os.path.abspath(src) != os.path.abspath(dst):
                     shutil.copy(os.path.join(src, f), dst)
+            old = {}
+            if os.path.exists(os.path.join(dst, 'meta.json')):
+                old = json.load(open(os.path.join(dst, 'meta.json')))
+            for k in ('round', 'history'):
+                if k in old:
+                    meta[k] = old[k]
             with open(os.path.join(dst, 'meta.json'), 'w') as f:
                 json.dump(meta, f, indent=1)
     finally:
